@@ -112,6 +112,12 @@ def check_assembly(prog, rep):
         good = True
         for k in PROB_ATTRS:
             v = kws.get(k)
+            if isinstance(v, ast.Name):
+                # a local bound once to the problem's attribute (ndecn = prob.ndecn) stands for it
+                ds_ = [n_.value for n_ in walk_no_nested(f.node) if isinstance(n_, ast.Assign) and len(n_.targets) == 1 and isinstance(n_.targets[0], ast.Name)
+                       and n_.targets[0].id == v.id]
+                if len(ds_) == 1 and isinstance(ds_[0], ast.Attribute):
+                    v = ds_[0]
             if v is None:
                 rep.violate("R1-assembly", construct, "solution is built without %s" % k, where(f, sol[0]), "%s=%s.%s" % (k, prob, k), "absent")
                 good = False
